@@ -947,6 +947,98 @@ func ssResumeCase(idx int) (*shpCase, string) {
 	return c, fmt.Sprintf("parent %d, %d ignored behind, nested kind %d, input %d, lookahead=%v", pf, k, kind, n, la)
 }
 
+// ---------------------------------------------------------------- family: the budget of nested lookups
+//
+// A context (format 3) with n actions, each running a contextual child lookup that has 0, 1 or 2
+// actions of its own (single substitution B -> C -> D ...): only nested lookups count against the
+// budget of 64, finished frames do not.
+var ssBudgetN = []int{20, 21, 22, 25, 31, 32, 33, 63, 64, 65}
+
+const ssBudgetCount = 10 * 3 * 3
+
+func ssBudgetCase(idx int) (*shpCase, string) {
+	n := ssBudgetN[idx%10]
+	idx /= 10
+	childActs := idx % 3
+	idx /= 3
+	cf := []int{53, 51, 63}[idx%3]
+	acts := make([]gtab.SeqLookup, n)
+	for i := range acts {
+		acts[i] = gtab.SeqLookup{SequenceIndex: uint16(i % 2), LookupListIndex: 1}
+	}
+	var cacts []gtab.SeqLookup
+	for i := 0; i < childActs; i++ {
+		cacts = append(cacts, gtab.SeqLookup{SequenceIndex: 0, LookupListIndex: 2})
+	}
+	all := coverage.Set{}
+	cov := coverage.Table{}
+	for x := 20; x < 120; x++ {
+		all[glyph.ID(x)] = true
+		cov[glyph.ID(x)] = x - 20
+	}
+	var child gtab.Subtable
+	switch cf {
+	case 53:
+		child = &gtab.SeqContext3{Input: []coverage.Set{all}, Actions: cacts}
+	case 51:
+		rules := make([][]*gtab.SeqRule, 100)
+		for i := range rules {
+			rules[i] = []*gtab.SeqRule{{Actions: cacts}}
+		}
+		child = &gtab.SeqContext1{Cov: cov, Rules: rules}
+	default:
+		child = &gtab.ChainedSeqContext3{Input: []coverage.Set{all}, Actions: cacts}
+	}
+	ll := gtab.LookupList{
+		ssLookup(5, 0, 0, &gtab.SeqContext3{Input: []coverage.Set{all, all}, Actions: acts}),
+		ssLookup(5, 0, 0, child),
+		// every application moves the glyph one step: the result counts the nested lookups that ran
+		ssLookup(1, 0, 0, &gtab.Gsub1_1{Cov: all, Delta: 1}),
+	}
+	c := &shpCase{ll: ll, gd: ssGdef(), lookups: []gtab.LookupIndex{0}}
+	c.hist = [][]glyph.Info{ssText([]glyph.ID{20, 20}), ssText([]glyph.ID{20, 20, 20, 20, 20})}
+	return c, fmt.Sprintf("%d actions, child format %d with %d actions", n, cf, childActs)
+}
+
+// ---------------------------------------------------------------- family: mark attachment classes beyond a byte
+//
+// GDEF mark attachment class of the mark m from {0, 1, 2, 255, 256, 257, 511, 65535}, lookups with
+// MarkAttachmentType 1, 2, 255 (no IgnoreMarks, no filtering set), m between the glyphs of a
+// ligature, of a pair and of a context: m is skipped iff its class differs from the type.
+var ssAttachClasses = []uint16{0, 1, 2, 255, 256, 257, 511, 65535}
+
+const ssAttachCount = 8 * 3
+
+func ssAttachCase(idx int) (*shpCase, string) {
+	cls := ssAttachClasses[idx%8]
+	idx /= 8
+	typ := []int{1, 2, 255}[idx%3]
+	fl := gtab.LookupFlags(typ << 8)
+	gd := ssGdef()
+	if cls == 0 {
+		delete(gd.MarkAttachClass, ssM)
+	} else {
+		gd.MarkAttachClass[ssM] = cls
+	}
+	ll := gtab.LookupList{
+		ssLookup(4, fl, 0, &gtab.Gsub4_1{Cov: coverage.Table{ssA: 0}, Repl: [][]gtab.Ligature{{{In: []glyph.ID{ssB}, Out: ssL}, {In: []glyph.ID{ssM, ssB}, Out: ssL2}}}}),
+		ssLookup(2, fl, 0, gtab.Gpos2_1{glyph.Pair{Left: ssA, Right: ssB}: &gtab.PairAdjust{First: &gtab.GposValueRecord{XAdvance: -20}},
+			glyph.Pair{Left: ssA, Right: ssM}: &gtab.PairAdjust{First: &gtab.GposValueRecord{XAdvance: -30}}}),
+		ssLookup(5, fl, 0, &gtab.SeqContext1{Cov: coverage.Table{ssA: 0}, Rules: [][]*gtab.SeqRule{{{Input: []glyph.ID{ssB},
+			Actions: []gtab.SeqLookup{{SequenceIndex: 1, LookupListIndex: 3}}}}}}),
+		ssLookup(1, 0, 0, &gtab.Gsub1_2{Cov: coverage.Table{ssB: 0, ssM: 1}, SubstituteGlyphIDs: []glyph.ID{ssC, ssD}}),
+		ssLookup(1, fl, 0, &gtab.Gsub1_2{Cov: coverage.Table{ssM: 0}, SubstituteGlyphIDs: []glyph.ID{ssM3}}),
+	}
+	var hist [][]glyph.Info
+	for _, gids := range [][]glyph.ID{{ssA, ssM, ssB}, {ssA, ssM, ssM, ssB, ssM}, {ssM}, {ssA, ssM2, ssM, ssB}} {
+		hist = append(hist, ssText(gids))
+	}
+	// one line per lookup keeps the replays short; the family member is the ligature line, the
+	// others follow through `more`
+	c := &shpCase{ll: ll, gd: gd, lookups: []gtab.LookupIndex{0, 1, 2, 4}, hist: hist}
+	return c, fmt.Sprintf("mark attachment class %d, lookup type %d", cls, typ)
+}
+
 // positioning: value records, pairs (both formats), mark-to-base, mark-to-mark on
 // base + marks clusters with advances.
 func (g *ssGen) positioning() *shpCase {
@@ -1162,6 +1254,20 @@ func areaShapeSpec(c *Ctx) {
 		sc, what := ssEdgeCase(i)
 		c.Stat("obligation: ignored glyphs at the edges", what)
 		emit(sc, "edge family")
+	}
+	for i := 0; i < ssBudgetCount; i++ {
+		sc, what := ssBudgetCase(i)
+		c.Stat("obligation: budget of nested lookups", what)
+		emit(sc, "budget family")
+	}
+	for i := 0; i < ssAttachCount; i++ {
+		sc, what := ssAttachCase(i)
+		c.Stat("obligation: mark attachment class x type", what)
+		for _, lk := range [][]gtab.LookupIndex{{0}, {1}, {2}, {4}, {0, 1, 2, 4}} {
+			sc2 := *sc
+			sc2.lookups = lk
+			emit(&sc2, "attachment class family")
+		}
 	}
 	for i := 0; i < ssClassCount; i++ {
 		sc, what := ssClassCase(i)
